@@ -15,6 +15,8 @@ def groups():
     G["DPb"] = (SO3Quat * R3) * SO2
     G["DPc"] = SE2 * (SO2 * R2)
     G["DPd"] = SO3Dcm * R2
+    G["DPe"] = SO3Quat * SO3Mrp
+    G["DPf"] = SE2 * SE2
     return G
 
 
@@ -87,6 +89,10 @@ def sample(name, rng, big=False):
         return np.concatenate([sample("SE2", rng), [rng.uniform(-3, 3)], rng.normal(size=2)])
     if name == "DPd":
         return np.concatenate([sample_so3("SO3Dcm", rng), rng.normal(size=2)])
+    if name == "DPe":
+        return np.concatenate([sample_so3("SO3Quat", rng), sample_so3("SO3Mrp", rng)])
+    if name == "DPf":
+        return np.concatenate([sample("SE2", rng), sample("SE2", rng)])
     raise KeyError(name)
 
 
@@ -103,6 +109,8 @@ def rot_part(name, p):
         return p[6:]
     if name == "DPa":
         return p[:3]
+    if name == "DPe":
+        return p[4:]
     return None
 
 
